@@ -47,6 +47,7 @@ struct Judge {
             }
             std::string replay = "scenario:\n" + sc.describe() + "\nfinding: " + f.what + "\n\nhistory:\n" + ex.world->h.dump(900);
             if (prop == ctx.prop) res.violation(prop, key, f.what + " [family " + sc.family + " seed " + std::to_string(sc.seed) + " index " + std::to_string(sc.index) + "]", replay);
+            else if (ctx.args.has("dump-notes")) res.violation(prop, key, f.what, replay);
             else if (res.notes.size() < 8) res.notes.push_back("NOTE " + prop + " monitor: " + key + ": " + f.what.substr(0, 160));
         }
         return !(ex.run.out.exception || ex.run.out.hang);
@@ -518,8 +519,11 @@ void run_c15(Judge& j, uint64_t extra_random) {
             for (int q = 0; q <= (int)std::min(maxqos, 1u); ++q) {
                 size_t base = publish_size("v/00000/s", "", q, false, {});
                 if (base < mps) {
-                    pub(q, false, "s", std::string(mps - base, 'x'), {}, 0);
-                    pub(q, false, "s", std::string(mps - base + 1, 'x'), {}, 101);
+                    // largest payload that still fits (the Remaining Length field grows at 128 / 16384)
+                    size_t L = mps - base;
+                    while (L > 0 && publish_size("v/00000/s", std::string(L, 'x'), q, false, {}) > mps) --L;
+                    pub(q, false, "s", std::string(L, 'x'), {}, 0);
+                    pub(q, false, "s", std::string(L + 1, 'x'), {}, 101);
                 }
             }
         }
@@ -527,14 +531,14 @@ void run_c15(Judge& j, uint64_t extra_random) {
         auto sub = [&](const std::string& filter, bool raw, ref::Props props, int expect) {
             Action s; s.kind = Action::subscribe; s.at = t; t += 1 * MS; s.subs = {{filter, 1}}; s.raw_topic = raw; s.props = props; s.expect_immediate = expect != 0; s.expect_ec = expect;
             // subscriptions are small; skip them if even the smallest would exceed a tiny Maximum Packet Size
-            ref::Packet p; p.type = ref::SUBSCRIBE; p.pid = 1; p.subs = {{raw ? filter : "v/00000/" + filter, 1}}; p.props = props;
+            ref::Packet p; p.type = ref::SUBSCRIBE; p.pid = 1; p.subs = {{raw ? std::string("$share/grp/v/00000/t") : "v/00000/" + filter, 1}}; p.props = props;
             if (mps && ref::encode(p).size() > mps) return;
             sc.script.push_back(s);
         };
         sub("plain/topic", false, {}, 0);
         sub("w/+/x", false, {}, wild_ok ? 0 : 108);
         sub("w/#", false, {}, wild_ok ? 0 : 108);
-        sub("$share/grp/v/00000/t", true, {}, shared_ok ? 0 : 110);
+        sub("$share/grp/{tag}t", true, {}, shared_ok ? 0 : 110);
         { ref::Props p; ref::Prop x; x.id = 0x0B; x.num = 7; p.push_back(x); sub("idf", false, p, shared_ok ? 0 : 109); }
         // DISCONNECT with properties larger than the limit: properties are dropped, not refused
         if (mps && rng.chance(1, 2)) {
